@@ -63,7 +63,7 @@ def isSpace (c : Char) : Bool :=
   n = 0x20 || (0x09 ≤ n && n ≤ 0x0D) || n = 0x85 || n = 0xA0 || n = 0x1680 ||
   (0x2000 ≤ n && n ≤ 0x200A) || n = 0x2028 || n = 0x2029 || n = 0x202F || n = 0x205F || n = 0x3000
 
-def isDigitC (c : Char) : Bool := '0' ≤ c && c ≤ '9'
+def isDigitC (c : Char) : Bool := 48 ≤ c.toNat && c.toNat ≤ 57     -- '0' <= r && r <= '9'
 
 def isSymbolRune (c : Char) : Bool :=
   !symbolStopRunes.contains c && !(symbolRuneExcludesSpace && isSpace c)
@@ -93,34 +93,49 @@ def spanW (p : Char → Bool) : List Char → List Char × List Char
   | [] => ([], [])
   | c :: cs => if p c then let (a, b) := spanW p cs; (c :: a, b) else ([], c :: cs)
 
-/-- one `NextWhile p` token: consume the longest run satisfying `p`, emit it with kind `k`, continue with `cont`;
-at end of input an unguarded predicate (`safe = false`) loops forever -/
-def lexRun (safe : Bool) (p : Char → Bool) (k : TK) (inp : List Char) (acc : List Tok)
-    (cont : List Char → List Tok → LexOut) : LexOut :=
-  if (spanW p inp).2.isEmpty && !safe then .hang acc else cont (spanW p inp).2 (acc ++ [⟨k, (spanW p inp).1⟩])
+/-- outcome of one call of `ScanFunc` (without its recursive re-entry after a comment) -/
+inductive Step
+  | eof                                           -- silent EOF: the parser sees `$end`
+  | fail                                          -- "expect symbol failure" published, then EOF
+  | hang                                          -- a loop predicate that stays true at end of input
+  | skip (rest : List Char)                       -- a comment was discarded; scan again
+  | emit (t : Tok) (es em : Bool) (rest : List Char)
+deriving DecidableEq, Repr
 
-/-- the whole token stream; `es`/`em` = expectSymbol/expectMetadata; fuel bounds the recursion (each
-step consumes at least one rune or ends) -/
+/-- one `NextWhile p` token: the longest run satisfying `p`; at end of input an unguarded predicate
+(`safe = false`) loops forever -/
+def stepRun (safe : Bool) (p : Char → Bool) (k : TK) (es em : Bool) (inp : List Char) : Step :=
+  if (spanW p inp).2.isEmpty && !safe then .hang else .emit ⟨k, (spanW p inp).1⟩ es em (spanW p inp).2
+
+/-- `LexScanner.ScanFunc`: skip white space, then one token according to the mode flags -/
+def lexStep (safe es em : Bool) (inp0 : List Char) : Step :=
+  match (spanW isSpace inp0).2 with
+  | [] => if es then .fail else .eof
+  | c :: cs =>
+    if em && isMetaRune c then stepRun safe isMetaRune .METADATA es em (c :: cs)
+    else if es then
+      if isSymbolRune c then stepRun safe isSymbolRune .SYMBOL false em (c :: cs) else .fail
+    else if c = commentStart then
+      if (spanW (· ≠ commentStop) (c :: cs)).2.isEmpty && !safe then .hang
+      else .skip (spanW (· ≠ commentStop) (c :: cs)).2
+    else match singleTok c with
+      | some (k, setSym, setMeta) => .emit ⟨k, [c]⟩ (setSym.getD es) (setMeta.getD em) cs
+      | none =>
+        if isDigitC c then stepRun safe isDigitC .NUMBER es em (c :: cs)
+        else if isSymbolRune c then stepRun safe isSymbolRune .SYMBOL es em (c :: cs)
+        else .eof       -- silent stop on a rune nobody handles (unreachable: `unhandled_is_symbol`)
+
+/-- the whole token stream: iterate `lexStep`; `es`/`em` = expectSymbol/expectMetadata; fuel bounds the
+iteration (each step consumes at least one rune or ends) -/
 def lexAll (safe : Bool) : Nat → Bool → Bool → List Char → List Tok → LexOut
   | 0, _, _, _, acc => .hang acc
-  | f+1, es, em, inp0, acc =>
-    match (spanW isSpace inp0).2 with
-    | [] => if es then .err acc else .ok acc
-    | c :: cs =>
-      if em && isMetaRune c then lexRun safe isMetaRune .METADATA (c :: cs) acc (fun b a => lexAll safe f es em b a)
-      else if es then
-        if isSymbolRune c then lexRun safe isSymbolRune .SYMBOL (c :: cs) acc (fun b a => lexAll safe f false em b a)
-        else .err acc
-      else if c = commentStart then
-        if (spanW (· ≠ commentStop) (c :: cs)).2.isEmpty && !safe then .hang acc
-        else lexAll safe f es em (spanW (· ≠ commentStop) (c :: cs)).2 acc
-      else match singleTok c with
-        | some (k, setSym, setMeta) =>
-          lexAll safe f (setSym.getD es) (setMeta.getD em) cs (acc ++ [⟨k, [c]⟩])
-        | none =>
-          if isDigitC c then lexRun safe isDigitC .NUMBER (c :: cs) acc (fun b a => lexAll safe f es em b a)
-          else if isSymbolRune c then lexRun safe isSymbolRune .SYMBOL (c :: cs) acc (fun b a => lexAll safe f es em b a)
-          else .ok acc      -- silent stop on a rune nobody handles (unreachable: `unhandled_is_symbol`)
+  | f+1, es, em, inp, acc =>
+    match lexStep safe es em inp with
+    | .eof => .ok acc
+    | .fail => .err acc
+    | .hang => .hang acc
+    | .skip rest => lexAll safe f es em rest acc
+    | .emit t es' em' rest => lexAll safe f es' em' rest (acc ++ [t])
 
 def lexChars (s : List Char) : LexOut := lexAll eofSafe (s.length + 1) false false s []
 
